@@ -1048,7 +1048,10 @@ impl Issuer {
                 let pk_r = cred_pr_pub_key.r.get(&attr.clone()).ok_or_else(|| {
                     err_msg!("Value by key '{}' not found in cred_pr_pub_key.r", attr)
                 })?;
-                let m_cap = &blinded_cred_secrets_correctness_proof.m_caps[attr];
+                let m_cap = blinded_cred_secrets_correctness_proof
+                    .m_caps
+                    .get(attr)
+                    .ok_or_else(|| err_msg!("Value by key '{}' not found in m_caps", attr))?;
                 acc?.mod_mul(
                     &pk_r.mod_exp(m_cap, &cred_pr_pub_key.n)?,
                     &cred_pr_pub_key.n,
@@ -1057,7 +1060,14 @@ impl Issuer {
         )?;
 
         for (key, value) in &blinded_cred_secrets.committed_attributes {
-            let m_cap = &blinded_cred_secrets_correctness_proof.m_caps[key];
+            let m_cap = blinded_cred_secrets_correctness_proof
+                .m_caps
+                .get(key)
+                .ok_or_else(|| err_msg!("Value by key '{}' not found in m_caps", key))?;
+            let r_cap = blinded_cred_secrets_correctness_proof
+                .r_caps
+                .get(key)
+                .ok_or_else(|| err_msg!("Value by key '{}' not found in r_caps", key))?;
             let comm_att_cap = value
                 .inverse(&cred_pr_pub_key.n)?
                 .mod_exp(
@@ -1069,7 +1079,7 @@ impl Issuer {
                         &cred_pr_pub_key.z,
                         m_cap,
                         &cred_pr_pub_key.s,
-                        &blinded_cred_secrets_correctness_proof.r_caps[key],
+                        r_cap,
                         &cred_pr_pub_key.n,
                     )?,
                     &cred_pr_pub_key.n,
